@@ -632,8 +632,14 @@ CHECKS["C14"].update({
              "transform_chain_untouched_preserved (each transform applied to the previous result, TRel.comp), history_closed_framed (ANY tree of clone / "
              "transform / extend derivations on one heap keeps every schema closed, well-formed and unwritten), with totality (runAll_total, runOps_total, "
              "chain_total); PRESERVED - transform_preserves_untouched (type level, every visitor), transform_preserves_untouched_members (fields, arguments, "
-             "input fields: in order, copies of a sub-list of the source's with every untouched attribute; hypothesis NoWrap), untouched_preserved_extend "
+             "input fields: in order, copies of a sub-list of the source's with every untouched attribute), untouched_preserved_extend "
              "(+ _protected, _directives, _schema_level), extend_keeps_leaf_class, clone_intact / transform_intact, visibility_hides_type(_transform); "
+             "IN-PLACE - history_inplace_closed_framed / inplace_step_separate (per-schema ownership: an in-place visitor on ANY derived schema, also "
+             "one created before others, writes only that schema's objects: every other schema stays closed, well-formed, unwritten), "
+             "camel_case_exact (per schema, exact: the by-name view of every type with the member names converted, none dropped), "
+             "transform_preserves_members_any_visitor (no NoWrap: under drop/wrap directive visitors only a field's resolver may change, to a "
+             "wrapper's id), extendO_closed_wf / extendO_frames_source (extend_schema with the document's implements clauses and the code's "
+             "dict order, extendOrder); "
              "REFINEMENT - clone_is_copy_then_exact_heal, clone_refines (the by-name dump of every type of a clone equals the source's for every "
              "interpretation of resolver ids / defaults), clone_refines_directives, clone_types_perm / clone_types_order (dict order of the clone = order of "
              "Schema.__init__'s type map; 'same order as the source' refuted, not part of the property), clone_registries_total. The ten `_partial` "
@@ -641,13 +647,15 @@ CHECKS["C14"].update({
              "traversal order, registries and dict orders included) over random clone / transform / extend / in-place / register sequences applied to the "
              "source or to earlier results, by-name dump(clone(s)) == dump(s), and direct oracles on the real code: closedness by identity, frame condition "
              "on the source, preserved attributes, hidden elements unreachable through real introspection and queries, resolvers still executed under the "
-             "new names, source still usable; named deterministic probes (python names through camel-case, visibility allow-lists, stale caches); oracle cases of the bug-hunt rounds (class tags of leaf "
+             "new names, source still usable; named deterministic probes (python names through camel-case, input fields of a clone, in-place visitor on an earlier result while later "
+             "schemas exist, visibility allow-lists, stale caches); oracle cases of the bug-hunt rounds (class tags of leaf "
              "types through extension, type resolvers returning objects of the source schema, schema directives applied by extensions only to what the "
              "extension wrote, inline directive definitions registered, defaults re-evaluated after extensions)."),
     "note": ("Trusted: Lean kernel; Cfg flag extraction (ast / regex); generators; snakecase_to_camelcase enters as a table computed by the real function "
              "(theorems hold for every renaming). Only exercised by the oracle, not modelled: validate(), Schema.implementations / _possible_types (derived "
-             "indexes), merge_resolvers' assignment onto fields, default values (opaque strings in the model), enum value objects. Residual hypotheses: "
-             "NoWrap in the member-level preservation theorems (the drop/wrap directive visitor replaces resolvers by design). Known findings T13, T14, "
+             "indexes), merge_resolvers' assignment onto fields, default values (opaque strings in the model), enum value objects, interfaces added to an "
+             "EXISTING type by `extend type X implements I`. history_inplace_closed_framed steps with extendO (= extend + interfaces of new types + dict order); the "
+             "histories of the first wave (history_closed_framed, run_ops_*) step with extend. Known findings T13, T14, "
              "T15-residue, T19 (see known_findings.json). Repaired on the way: S2, T1-T12, T15-T18, U1."),
     "technique": "Lean 4 proof over an object-heap model (closedness, frame, ownership, preservation, refinement; induction over derivation histories) + live object-graph correspondence and identity oracles",
 })
